@@ -17,7 +17,7 @@ func init() {
 		Assumptions: []string{
 			"operation alphabet: Set(id,len) with id in {0,1,2,14,15,16,255} x len in {0,1,4,16,17,255,256,300} (value bytes keyed by the operation index) and Del(id) with id in {0,1,2,14,15,255}: 62 operations; all sequences up to depth 3 (quick) / 4 (thorough)",
 			"starting states: fresh header; preset one-byte; preset two-byte; preset legacy (no element yet) and decoded legacy with one word, each for the profiles {0x1234, 0x1001, 0x100F, 0xBEDF, 0x0000}; decoded from wire: one-byte with 2 elements, two-byte with 2 elements; reused receivers: decoded a block with extensions then a packet without / a two-byte block then a one-byte block",
-			"long sequences: all sequences of 6 (quick) / 7 (thorough) calls over the 10-call alphabet {Set(1,1B), Set(2,16B), Set(3,4B), Set(14,2B), Del(1), Del(2), Del(3), Del(14), Set(2, the same slice as the previous Set), Set(1, other content of the previous length)} from the starting states (legacy profiles 0x1234 and 0x1001 only), and one fill-up run that sets all 14 one-byte ids / 40 two-byte ids and deletes every second one",
+			"long sequences: all sequences of 6 (quick) / 7 (thorough) calls over the 10-call alphabet {Set(1,1B), Set(2,16B), Set(3,4B), Set(14,2B), Del(1), Del(2), Del(3), Del(14), Set(2, the same slice as the previous Set), Set(1, other content of the previous length)} from the starting states (legacy profiles 0x1234 and 0x1001 only), and one fill-up run that sets all 14 one-byte ids / 40 two-byte ids, sets each of them again with another value, and deletes every second one",
 			"the model follows the library's return values (it does not decide which Set calls must be accepted); wrongly accepted values are caught by the wire-survival clause",
 		},
 		Scenarios: []mc.Scenario{
@@ -274,6 +274,17 @@ func c05Long(c *mc.Ctx) {
 			trace = append(trace, fmt.Sprintf("Set(%d,%dB)", i, len(v)))
 		}
 		c05Oracle(c, h, m, hist)
+		// every id is set again, last first, with another value: an update, not an insertion
+		for i := n; i >= 1; i-- {
+			v := fill(1+(i+5)%16, byte(i)+0x80)
+			if err := h.SetExtension(uint8(i), v); err == nil {
+				m.set(uint8(i), clone(v))
+			}
+			trace = append(trace, fmt.Sprintf("Set(%d,%dB)", i, len(v)))
+			if i%8 == 0 || i == 1 {
+				c05Oracle(c, h, m, hist)
+			}
+		}
 		for i := 2; i <= n; i += 2 {
 			if err := h.DelExtension(uint8(i)); err == nil {
 				m.del(uint8(i))
